@@ -47,7 +47,9 @@ def replAll (pat rep : List UInt8) : Nat → List UInt8 → List UInt8
 def pred (opts : List Opt) (cmd : List (List UInt8)) (input : List UInt8)
     (status : Nat) (argvs : List (List (List UInt8))) : Bool :=
   if dupOpts opts then true else
-  if opts.any (fun | .n 0 => true | .l 0 => true | .s 0 => true | .d _ => true | .null => true | .s _ => true | .x => true | _ => false) then true else
+  if opts.any (fun | .n 0 => true | .l 0 => true | .s 0 => true | .d _ => true | .null => true | .x => true | _ => false) then true else
+  let sOpt := (opts.filterMap (fun | .s v => some v | _ => none)).getLast?
+  if sOpt.isSome && (replaceMode opts).isNone then true else
   match replaceMode opts, cmd with
   | none, _ =>
     -- not replace mode (a later -n or -L decides): nothing may be substituted, commands start with
@@ -60,6 +62,16 @@ def pred (opts : List Opt) (cmd : List (List UInt8)) (input : List UInt8)
     let lines := splitLines input
     if !inDomain lines || r.isEmpty then true else
     let expected := lines.map (fun l => prog :: initial.map (fun a => replAll r l (a.length + 1) a))
-    status == 0 && argvs == expected
+    -- with -s: a command is run only if it fits max-chars after substitution (and, as for every
+    -- argument, if the line fits beside the command as written); the first line for which it does
+    -- not ends the run with status 1
+    let cost := fun (av : List (List UInt8)) => (av.map (fun a => a.length + 1)).sum
+    let fits := fun (l : List UInt8) (av : List (List UInt8)) =>
+      match sOpt with
+      | some s => decide (cost av ≤ s) && decide (cost (prog :: initial) + l.length + 1 ≤ s)
+      | none => true
+    let good := ((lines.zip expected).takeWhile (fun x => fits x.1 x.2)).map (·.2)
+    if good.length < expected.length then status == 1 && argvs == good
+    else status == 0 && argvs == expected
 
 end FuModel.Pred.C20
